@@ -184,7 +184,7 @@ def sendEventsOf (v : VarSpec) : Bool :=
     maximum / allowed values / default read with the type's own converter (`varOf`) -/
 def mirrorVar (nonStrict : Bool) (v : VarSpec) : Except FErr (VarM F) :=
   varOf fo tb nonStrict v.seAttr v.seElem v.dataType v.default v.name
-    (v.range.map fun r => (r.1, r.2.1)) (v.allowed.map fun l => l.filter (fun s => !s.isEmpty))
+    (v.range.map fun r => (r.1, r.2.1)) (v.allowed.map fun l => l.map (fun s => if s.isEmpty then none else some s))
 
 /-- arguments are bound by the NAME of their related state variable -/
 def mirrorAction (vars : List (VarM F)) (a : ActionSpec) : Except FErr ActM :=
@@ -257,11 +257,11 @@ def VarSpec.wf (v : VarSpec) : Bool :=
               let den (o : Option Str) : Bool := match o with
                 | some s => isOk (coercePython fo tb row s)
                 | none => true
-              den v.default && (v.allowed.getD []).all (fun s => den (some s))
+              den v.default && (v.allowed.getD []).all (fun s => den (some s) && (!s.isEmpty || row.ty == .str))
               && (match v.range with | some (mn, mx, _) => den mn && den mx | none => true)
           | none => false
       | none => false)
-  && (match v.allowed with | some l => !l.isEmpty && l.all (fun s => !s.isEmpty) | none => true)
+  && (match v.allowed with | some l => !l.isEmpty | none => true)
   && (match v.range with
       | some (mn, mx, _) => (mn.isSome || mx.isSome) && mn != some [] && mx != some []
       | none => true)
@@ -301,6 +301,14 @@ def deviceTypes : List DeviceSpec → List Str
   | [] => []
   | .mk info _ _ _ :: r => (info.head?.getD none).getD [] :: deviceTypes r
 
+/-- the UDNs of a list of (embedded) devices -/
+def udns : List DeviceSpec → List Str
+  | [] => []
+  | .mk info _ _ _ :: r => (info.getD 9 none).getD [] :: udns r
+
+/-- device and service types are URNs: they contain no `#` -/
+def noHash (s : Str) : Bool := !s.contains '#'
+
 section
 variable {F : Type} (fo : FloatOps F) (tb : Table)
 
@@ -310,19 +318,22 @@ def DeviceSpec.wf (base : Str) : DeviceSpec → Bool
       info.length == 12 && (info.head?.getD none).isSome
       && icons.all IconSpec.wf
       && svcs.all (ServiceSpec.wf fo tb)
-      && allDistinct (svcs.map fun s => s.serviceType.getD [])
+      && allDistinct (svcs.map fun s => s.serviceId.getD [])          -- service ids are unique within a device
+      && svcs.all (fun s => noHash (s.serviceType.getD []))
       && wfs base emb
-      && allDistinct (deviceTypes emb)
+      && allDistinct (udns emb)                                        -- UDNs are unique
+      && (deviceTypes emb).all noHash
 def wfs (base : Str) : List DeviceSpec → Bool
   | [] => true
   | d :: r => d.wf base && wfs base r
 end
 
-/-- the SCPD URLs resolve to pairwise distinct documents, none of them the description itself -/
+/-- every SCPD URL is inside the URL grammar and is not the description itself, and services whose
+    SCPD URLs resolve to the same URL are described by the same document (a URL has one content) -/
 def urlsOk (base : Str) (d : DeviceSpec) : Bool :=
-  let us := d.allServices.map fun s => joinOpt base s.scpdURL
-  us.all (fun u => u.isSome && u != some base)
-  && allDistinct (us.map fun u => u.getD [])
+  let ss := d.allServices
+  ss.all (fun s => (joinOpt base s.scpdURL).isSome && joinOpt base s.scpdURL != some base)
+  && ss.all (fun s => ss.all fun s' => joinOpt base s.scpdURL != joinOpt base s'.scpdURL || s.doc == s'.doc)
 
 /-! ### judging an observed model -/
 
@@ -348,6 +359,15 @@ inductive Observed (F : Type)
   | created (rows : List (DevRow F))
   | libraryError        -- UpnpXmlContentError / UpnpXmlParseError (the library's error type)
   | otherError
+
+/-- what a result of `async_create_device` looks like to the judge: the flattened graph, or whether
+    the exception is one of the library's XML errors -/
+def observedOf (r : Except FErr (List (DevRow F))) : Observed F :=
+  match r with
+  | .ok rows => .created rows
+  | .error .xmlContent => .libraryError
+  | .error .xmlParse => .libraryError
+  | .error _ => .otherError
 
 /-- the property: a well-formed description yields exactly `mirror` (`norm` forgets what is not
     observable: `allowed_values` is a Python set, so its order and multiplicity); when `mirror` refuses (strict
